@@ -1,6 +1,7 @@
 // vclient.hpp — common frame for the harness clients: script text <-> structure, run loop,
 // output format consumed by check.py and by the Lean driver.
 //
+//   START seed=<s> strat=<k> script=<text>     (printed before the run executes; identifies the input of a crash)
 //   RUN seed=<s> strat=<k> script=<text>
 //   <tid> <event ...>            (one line per event; first line is "0 cfg <component> ...")
 //   FAIL <text>                  (C++-side monitor, zero or more)
@@ -181,6 +182,9 @@ inline int client_main(int argc, char** argv, const std::vector<Script>& directe
         cur().seed = s;
         cur().strat = strat;
         cur().sc = &sc;
+        // announce the run BEFORE executing it: if the library crashes the process, the parent still knows the input
+        fprintf(out, "START seed=%llu strat=%d script=%s\n", static_cast<unsigned long long>(s), strat, to_text(sc).c_str());
+        fflush(out);
         verif::Result r = exec(sc, cfg);
         dump(out, s, strat, sc, r);
     };
